@@ -188,6 +188,14 @@ func (p *Program) parseContractFile(file, pkgName string) error {
 			}
 			p.preds[pkgName+"."+m[1]] = &PredDef{name: m[1], pkg: pkgName, params: splitList(m[2]), body: e, text: m[3]}
 			cur = nil
+		case strings.HasPrefix(s, "regex "):
+			// regex <var> covers|within|equals [label] "<spec>" [except "<regex>"]
+			m := regexp.MustCompile(`^regex\s+(\w+)\s+(covers|within|equals)\s+\[([\w.\-]+)\]\s+"(.*?)"(?:\s+except\s+"(.*)")?\s*$`).FindStringSubmatch(s)
+			if m == nil {
+				return fmt.Errorf("%s:%d: bad regex clause", file, l.line)
+			}
+			p.regexClauses = append(p.regexClauses, &RegexClause{pkg: pkgName, varN: m[1], kind: m[2], label: m[3], spec: m[4], except: m[5], file: file, line: l.line})
+			cur = nil
 		case reSpecFun.MatchString(s):
 			m := reSpecFun.FindStringSubmatch(s)
 			var args []string
